@@ -90,15 +90,16 @@ def parseOp (ws : List String) : Option Op :=
   | ["wr"] => some .wr
   | _ => none
 
-def showEv : Ev → String
-  | .recv p k => "R:" ++ digest p ++ ":" ++ toString k
-  | .discard p => "D:" ++ digest p
-  | .sendComplete _ => "SC"
-  | .readZero _ => "Z"
-  | .readError c => "RE" ++ toString c
-  | .writeError c => "WE" ++ toString c
-  | .disconnected _ _ => "DC"
-  | .sendDrop _ => "DROP"
+/-- user callbacks only: a discard / a dropped send are log lines in the code, visible through `rq` / `wire` -/
+def showEv : Ev → Option String
+  | .recv p k => some ("R:" ++ digest p ++ ":" ++ toString k)
+  | .discard _ => none
+  | .sendComplete _ => some "SC"
+  | .readZero _ => some "Z"
+  | .readError c => some ("RE" ++ toString c)
+  | .writeError c => some ("WE" ++ toString c)
+  | .disconnected _ _ => some "DC"
+  | .sendDrop _ => none
 
 def showSt (s : S) : String :=
   if s.conn ∧ s.expired then "X" else
@@ -154,7 +155,7 @@ def stepLine (s : S) (line : String) : S × List String :=
     | some op =>
       if !op.okIn s then (s, ["bad-op"]) else
       let (s', r) := step s op
-      let evs := (s'.hist.drop s.hist.length).map showEv
+      let evs := (s'.hist.drop s.hist.length).filterMap showEv
       let tags := branchTags s op s'
       (s', (if tags.isEmpty then [] else ["B " ++ " ".intercalate tags]) ++
         ["P ret=" ++ b01 r ++ " st=" ++ showSt s' ++ " ev=" ++ (if evs.isEmpty then "-" else ",".intercalate evs) ++
